@@ -54,6 +54,10 @@ func (cl Serializer) DecodeDnsResponse(msg *dns.Msg) (Response, error) {
 
 // DecodeDnsResponse will take a DNS message and decode it into one of the DNS response object
 func (cl Serializer) DecodeDnsResponseWithParams(msg *dns.Msg, downstream enc.Encoder) (Response, error) {
+	if downstream == nil {
+		// No downstream codec negotiated yet: the server answers with its default
+		downstream = enc.Base32Encoding
+	}
 	data := util.UnwrapDnsResponse(msg, cl.Domain)
 	for _, c := range Commands {
 		if c.IsOfType(data) {
@@ -81,6 +85,10 @@ func (cl Serializer) EncodeDnsRequest(req Request) (*dns.Msg, error) {
 
 // EncodeDnsRequestWithParams will take a Request and encode it as a DNS message using given (overriden) params
 func (cl Serializer) EncodeDnsRequestWithParams(req Request, qt dnsmessage.Type, upstream enc.Encoder) (*dns.Msg, error) {
+	if upstream == nil {
+		// No upstream codec negotiated yet: the server expects its default
+		upstream = enc.Base32Encoding
+	}
 	data, err := req.Encode(upstream)
 	if err != nil {
 		return nil, errors.WithStack(err)
